@@ -954,8 +954,12 @@ class FortranReaderBase:
             ):
                 # ;-separator not recognized in pyf-mode
                 items = []
-                # Deal with each Fortran statement separately.
-                split_line_iter = iter(item.get_line().split(";"))
+                # Deal with each Fortran statement separately. The line is
+                # split using a map that does not change the case of the
+                # text (get_line() lower-cases it), so that names keep
+                # their spelling.
+                cased_line, cased_map = string_replace_map(item.line)
+                split_line_iter = iter(cased_line.split(";"))
                 first = next(split_line_iter)
                 # The full line has already been processed as a Line
                 # object in 'item' (and may therefore have label
@@ -967,7 +971,7 @@ class FortranReaderBase:
                 # statement (rather than the full line). Subsequent
                 # statements need to be processed into Line
                 # objects.
-                items.append(item.copy(first.strip(), apply_map=True))
+                items.append(item.copy(cased_map(first.strip())))
                 for line in split_line_iter:
                     # Any subsequent statements have not been processed
                     # before, so new Line objects need to be created.
@@ -981,7 +985,7 @@ class FortranReaderBase:
                         # using the existing span (line numbers) and
                         # reader.
                         new_line = Line(
-                            item.apply_map(line), item.span, label, name, item.reader
+                            cased_map(line), item.span, label, name, item.reader
                         )
                         items.append(new_line)
                 items.reverse()
